@@ -262,9 +262,13 @@ READ_OK_PREFIX = ("/etc/ld.so.", "/lib/", "/lib64/", "/usr/lib/", "/usr/lib64/",
                   "/proc/cpuinfo", "/proc/meminfo")
 
 
-def judge(events, canary_tokens, own_files=(), allow_write_paths=(), count_first_exec=False):
+def judge(events, canary_tokens, own_files=(), allow_write_paths=(), count_first_exec=False, import_tokens=()):
     """Apply the sandbox policy. canary_tokens: substrings that only occur in paths/commands the PROGRAM
     supplied. own_files: absolute or relative paths garden itself is told to read (the source file).
+    import_tokens: substrings of FILE NAMES that only occur as the target of an `import` (also inside a snippet given
+    to reflect::check_snippet). Import resolution reads files but is not the filesystem API of the property: a
+    read-only open / stat of such a file is an observation wherever the resolver looks for it (the directory it is
+    resolved against may itself be a program-supplied canary path). Writes and mutations stay violations.
     -> (violations, observations); each a list of {"kind","syscall","detail"}."""
     viol, obs = [], []
     first_exec = not count_first_exec
@@ -299,7 +303,8 @@ def judge(events, canary_tokens, own_files=(), allow_write_paths=(), count_first
         if n in DATA_CALLS:
             continue
         paths = [_unescape(x) for x in STR_RE.findall(a)]
-        touched = [p for p in paths if any(tok in p for tok in canary_tokens)]
+        imported = [p for p in paths if any(tok in os.path.basename(p.rstrip("/")) for tok in import_tokens)]
+        touched = [p for p in paths if p not in imported and any(tok in p for tok in canary_tokens)]
         if n in MUTATORS:
             add(viol, "mutate", e)
             continue
@@ -314,12 +319,18 @@ def judge(events, canary_tokens, own_files=(), allow_write_paths=(), count_first
             if touched:
                 add(viol, "canary-touch", e)
                 continue
+            if imported:
+                add(obs, "import-read", e)
+                continue
             if not wr and path and not path.startswith(READ_OK_PREFIX) and path not in own \
                     and os.path.basename(path) not in own_base:
                 add(obs, "other-read-open", e)
             continue
         if touched:
             add(viol, "canary-touch", e)
+            continue
+        if imported:
+            add(obs, "import-read", e)
             continue
         if n in ("chdir", "fchdir"):
             add(obs, "chdir", e)
